@@ -166,15 +166,15 @@ class ConvexHullStub:
             if pos:
                 N = [-x for x in N]
             facets.append((N, a, frozenset(members)))
-        verts = sorted(set().union(*[f[2] for f in facets])) if facets else []
-        self.vertices = _np.array(verts)
         simplices, eqs = [], []
         variant = int(getattr(core.CTX, "hull_variant", 0))
+        on_hull = set()
         for N, a, members in facets:
             norm = (N[0] * N[0] + N[1] * N[1] + N[2] * N[2]).sqrt()
             nu = [x / norm for x in N]
             off = -(nu[0] * a[0] + nu[1] * a[1] + nu[2] * a[2])
             cyc = self._order_facet(P, sorted(members), N)
+            on_hull.update(cyc)
             # fan triangulation; the apex of the fan is a degree of freedom of qhull's Qt
             r = (variant // 7) % len(cyc)
             cyc = cyc[r:] + cyc[:r]
@@ -195,6 +195,8 @@ class ConvexHullStub:
             perms = [(0, 1, 2), (1, 2, 0), (2, 0, 1), (0, 2, 1), (2, 1, 0), (1, 0, 2)]
             if variant:
                 simplices[t] = [s[q] for q in perms[pat]]
+        verts = sorted(on_hull)
+        self.vertices = _np.array(verts)
         self.simplices = _np.array(simplices)
         self.equations = sarr(eqs)
         nb = []
@@ -261,8 +263,7 @@ class ConvexHullStub:
                 break
             cyc.append(cand)
             cur = cand
-        if len(cyc) != len(members):
-            raise core.Abort("facet with a non-extreme coplanar point")
+        # members not on the cycle lie inside the facet (or on its edges): they are not hull vertices
         return cyc
 
 
